@@ -22,8 +22,8 @@ ASSUMPTIONS = [
 NSHARDS = {"quick": 32, "thorough": 64}
 BUDGET_S = {"quick": 240, "thorough": 2400}
 MIN_HITS = {
-    "quick": {"variant": 8000, "expect_accept": 2000, "expect_reject": 4000, "mutation_still_valid": 1500, "family_p2pk": 60, "family_p2pkh": 60, "family_multisig": 120, "lib_signed": 100, "with_separator": 150, "reversed_digest": 250, "legacy_flag": 120, "forkid_flag": 120},
-    "thorough": {"variant": 150000, "expect_accept": 40000, "expect_reject": 80000, "mutation_still_valid": 30000, "family_multisig": 2500, "lib_signed": 2000, "with_separator": 3000, "reversed_digest": 5000},
+    'quick': {"variant": 8000, "expect_accept": 2000, "expect_reject": 4000, "mutation_still_valid": 1500, "family_p2pk": 60, "family_p2pkh": 60, "family_multisig": 120, "lib_signed": 100, "with_separator": 150, "reversed_digest": 250, "legacy_flag": 120, "forkid_flag": 120},
+    'thorough': {"variant": 307653, "expect_accept": 110476, "expect_reject": 197176, "mutation_still_valid": 100876, "family_multisig": 4819, "lib_signed": 3933, "with_separator": 6889, "reversed_digest": 9600},
 }
 FLAGS = [0x01, 0x02, 0x03, 0x81, 0x82, 0x83, 0x41, 0x42, 0x43, 0xC1, 0xC2, 0xC3]
 
